@@ -37,6 +37,14 @@ def Event.preimage : Event → Bytes
 
 def Event.hash (e : Event) : Bytes := sha256 e.preimage
 
+/-- The part of `Validate` the generators can violate: nonce ≠ 0, amount ≥ 0. -/
+def Event.validBasic : Event → Bool
+  | .sendToHub n _ amount .. => n != 0 && amount ≥ 0
+  | .transfer n _ amount .. => n != 0 && amount ≥ 0
+  | .batchExecuted _ n .. => n != 0
+  | .contractCall n .. => n != 0
+  | .signerSet n .. => n != 0
+
 /-! ### Staking view and signer resolution -/
 
 def Hub.validator? (h : Hub) (v : String) : Option Validator := h.staking.find? (·.addr == v)
@@ -137,18 +145,18 @@ def Hub.handle (h : Hub) (mintsFee : Bool) (chain : String) : Event → M Hub
 /-- `TryEventVoteRecord` for one record (already known to be at `lastObserved + 1`). -/
 def Hub.tryRecord (h : Hub) (mintsFee : Bool) (chain : String) (r : VoteRec) : M Hub := do
   if r.accepted then panicM "attempting to process observed external event"
-  let required := voteThreshold h.params.voteNum h.params.voteDen h.totalPower
+  let required := voteThreshold h.params.voteNum h.params.voteAdd h.params.voteDen h.totalPower
   if !reachesThreshold h.lastPower required r.votes 0 then return h
   let c := h.chain chain
   if r.nonce != c.lastObserved + 1 then panicM "attempting to apply events to state out of order"
   let c := { c with lastObserved := r.nonce, obsExtHeight := r.ev.height, obsCosmosHeight := h.height,
                     records := insertByKey recKey { r with accepted := true } c.records }
   let h := h.setChain chain c
-  -- processExternalEvent: cache context, commit only on nil error, panics propagate
+  -- processExternalEvent: cache context, commit only on nil error; a panic of the handler is
+  -- recovered and treated like an error
   match h.handle mintsFee chain r.ev with
   | .ok h' => return h'
-  | .error (.fail _) => return h
-  | .error e => .error e
+  | .error _ => return h
 
 /-- `eventVoteRecordTally`: records are read once, in key order (nonce, then hash). -/
 def Hub.tally (h : Hub) (mintsFee : Bool) (chain : String) : M Hub :=
